@@ -18,7 +18,8 @@ def _jobs(ctx):
     q = ctx.quick()
     n = 40 if q else 500
     return (sc.corpus_job(ctx) + [(f'rates{k}', ['rates_syn', n]) for k in range(6 if q else 10)]
-            + [(f'one{k}', ['one_step', n]) for k in range(3 if q else 6)] + [(f'ship{k}', ['shipped_sync', n]) for k in range(3 if q else 6)])
+            + [(f'one{k}', ['one_step', n]) for k in range(3 if q else 6)] + [(f'ship{k}', ['shipped_sync', n]) for k in range(3 if q else 6)]
+            + [('fixrec', ['fixrec', n]), ('sibling', ['isolate', n]), ('varfix', ['varfix', n])])
 
 
 def tie(ctx):
@@ -26,7 +27,7 @@ def tie(ctx):
 
 
 def search(ctx, hint):
-    return sc.search_with(ctx, hint, [(f's{k}', ['rates_syn', 200]) for k in range(8)])
+    return sc.search_with(ctx, hint, [(f's{k}', ['rates_syn', 200]) for k in range(5)] + [('f', ['fixrec', 300]), ('i', ['isolate', 200]), ('v', ['varfix', 200])])
 
 
 def replay(ctx, rep):
